@@ -5,6 +5,24 @@ Each family lives in JsonV/Oracle/<Family>.lean and only calls Model/Spec defini
 -/
 import JsonV.Oracle.Util
 import JsonV.Oracle.Flags
+import JsonV.Oracle.Wire
+import JsonV.Oracle.Quote
+import JsonV.Oracle.Num
+import JsonV.Oracle.Cmp
+import JsonV.Oracle.Ptr
+import JsonV.Oracle.Sm
+import JsonV.Oracle.Enc
+import JsonV.Oracle.Dec
+import JsonV.Oracle.Fmt
+import JsonV.Oracle.Time
+import JsonV.Oracle.Fields
+import JsonV.Oracle.Disp
+import JsonV.Oracle.Arsh
+import JsonV.Oracle.V1
+import JsonV.Oracle.Tree
+import JsonV.Oracle.Dup
+import JsonV.Oracle.Iso
+import JsonV.Oracle.Depth
 
 open JsonV.Oracle
 
@@ -12,6 +30,24 @@ def dispatch (line : String) : String :=
   match (line.splitOn " ").filter (· ≠ "") with
   | "flags" :: op :: args => Flags.handleFlags op args
   | "opts" :: op :: args => Flags.handleOpts op args
+  | "wire" :: op :: args => Wire.handle op args
+  | "quote" :: op :: args => Quote.handle op args
+  | "num" :: op :: args => Num.handle op args
+  | "cmp" :: op :: args => Cmp.handle op args
+  | "ptr" :: op :: args => Ptr.handle op args
+  | "sm" :: op :: args => Sm.handle op args
+  | "enc" :: op :: args => Enc.handle op args
+  | "dec" :: op :: args => Dec.handle op args
+  | "fmt" :: op :: args => Fmt.handle op args
+  | "time" :: op :: args => Time.handle op args
+  | "fields" :: op :: args => Fields.handle op args
+  | "disp" :: op :: args => Disp.handle op args
+  | "arsh" :: op :: args => Arsh.handle op args
+  | "v1" :: op :: args => V1.handle op args
+  | "tree" :: op :: args => Tree.handle op args
+  | "dup" :: op :: args => Dup.handle op args
+  | "iso" :: op :: args => Iso.handle op args
+  | "depth" :: op :: args => Depth.handle op args
   | "ping" :: _ => "pong"
   | _ => "ERR unknown-family"
 
